@@ -84,19 +84,29 @@ func (t *IterableType) IsAssignable(o px.Type, g px.Guard) bool {
 	var et px.Type
 	switch o := o.(type) {
 	case *ArrayType:
+		if o.size.max == 0 {
+			// only the empty array: nothing to iterate over
+			return true
+		}
 		et = o.ElementType()
 	case *BinaryType:
 		et = NewIntegerType(0, 255)
 	case *HashType:
+		if o.size.max == 0 {
+			return true
+		}
 		et = o.EntryType()
 	case *stringType, *vcStringType, *scStringType, *EnumType, *PatternType:
 		et = OneCharStringType
 	case *IterableType:
 		et = o.typ
 	case *TupleType:
+		if o.givenOrActualSize.max == 0 {
+			return true
+		}
 		if len(o.types) == 0 {
 			// a tuple without types accepts elements of any type
-			return o.givenOrActualSize.max == 0 || GuardedIsAssignable(t.typ, anyTypeDefault, g)
+			return GuardedIsAssignable(t.typ, anyTypeDefault, g)
 		}
 		return allAssignableTo(o.types, t.typ, g)
 	default:
@@ -107,7 +117,8 @@ func (t *IterableType) IsAssignable(o px.Type, g px.Guard) bool {
 
 func (t *IterableType) IsInstance(o px.Value, g px.Guard) bool {
 	if iv, ok := o.(px.Indexed); ok {
-		return GuardedIsAssignable(t.typ, iv.ElementType(), g)
+		// an empty collection iterates over nothing
+		return iv.Len() == 0 || GuardedIsAssignable(t.typ, iv.ElementType(), g)
 	}
 	if _, ok := o.(*Binary); ok {
 		return GuardedIsAssignable(t.typ, NewIntegerType(0, 255), g)
